@@ -40,7 +40,10 @@ struct tm;	/* <time.h> */
  * and optionally into struct tm.
  * If as_gmt is given, the resulting _optional_tm4fill will have a GMT zone,
  * instead of default local one.
- * On error returns -1 and errno set to EINVAL
+ * On error returns -1 and errno set to EINVAL.
+ * NOTE: -1 is also a valid time (1969-12-31 23:59:59 UTC). To tell it from
+ * an error, set errno to an unlikely value (e.g., EPERM) before the call and
+ * test for (ret == -1 && errno != EPERM), as GeneralizedTime_constraint() does.
  */
 time_t asn_GT2time(const GeneralizedTime_t *, struct tm *_optional_tm4fill,
 	int as_gmt);
